@@ -11,16 +11,39 @@ from . import common
 from .common import Corr
 
 ID = "C11"
-LEAN_MODULES = ["TempestVerif.Props.C11"]
-RULE = ("real Sampler iterations in the prior-sampling phase (ess_ratio chosen so that beta stays 0 for 1..6 iterations), "
+LEAN_MODULES = ["TempestVerif.Props.C11", "TempestVerif.Props.C11Pipeline"]
+RULE = ("(1) warmup-evidence: real Sampler iterations in the prior-sampling phase (ess_ratio chosen so that beta stays 0 for 1..8 "
+        "iterations; n_particles in {1,2,3,4,5,8,16,32,64}; d in {1,2}; with and without blobs; vectorised and per-point likelihood), "
         "np.random.rand replaced by a tape of dyadic points so that the number of finite draws of every batch is scripted "
-        "(likelihood is -inf exactly on x0 < threshold), np.random.choice replaced by a tape; after every iteration the recorded "
-        "logz is compared with the Rat model's linear-space evidence (|exp(logz) - Z| <= 1e-12 Z) and every stored logl must be "
-        "finite whenever the batch had a finite draw. Non-trivial = at least two warm-up iterations and at least one batch with "
-        "-inf draws.")
-MODELLED = ["the beta = 0 reweighting is modelled in linear space: Z = 1/sum_t (n_t/N)/Z_t (exact consequence of the C04 formula at beta = beta_t = 0)",
-            "a batch with NO finite draw is the recorded known finding F8 (stored as is, logz = -inf); the generator keeps at least one finite draw per batch",
-            "-inf produced at beta > 0 is never accepted (exp(-inf) = 0); NaN likelihoods are outside the statement"]
+        "(likelihood is -inf exactly on x0 < threshold), np.random.choice replaced by a tape; after every iteration (a) the recorded "
+        "logz is compared with the Rat model's linear-space evidence (|exp(logz) - Z| <= 1e-12 Z), (b) the stored u rows must be, "
+        "bit for bit, the drawn rows the replacement step of the pipeline model (`warm.rep` = Model.Pipeline.warmup) selects from the "
+        "same picks, (c) every stored record must be whole (x = T(u), logl = L(x), blob = blob(x)) and every stored logl finite whenever "
+        "the batch had a finite draw; 4% of the cases end with a batch with NO finite draw (the recorded finding F8), where model and "
+        "code must both store the batch unchanged with Z = 0. Non-trivial = at least two warm-up iterations and at least one batch with "
+        "-inf draws. "
+        "(2) pipeline-warmup-replay: whole real Sampler runs (both kernels, both resamplers, d in {1,2,3}, n in {8,16,24}, supported "
+        "prior fraction f in {1/8,...,15/16}, ess_ratio in {1.5,2.5,3.5}) through warm-up AND annealing, all randomness recorded on a "
+        "tape and replayed by Model.Pipeline.runIters (`pipe.F`): beta, ESS, logz after reweighting, committed logz (1e-9), resampled "
+        "indices, accept masks (a -inf proposal must be rejected) and the committed batches (tags -> u bytes, logl bit for bit) must "
+        "agree; every stored logl of the real run must be finite. Runs that hit a batch with no finite draw stop there; the model must "
+        "leave its domain at exactly that iteration (F8). Non-trivial = a batch with -inf draws, >= 2 warm-up and >= 1 annealing "
+        "iteration.")
+MODELLED = ["np.random.choice(finite_idx, size=k, replace=True) returns k elements of finite_idx (hypothesis `PicksOk` of the "
+            "pipeline theorems; the suites replace / observe it)",
+            "np.isinf / the likelihood: a draw is `none` on the tape iff its log-likelihood is not finite; NaN and +inf likelihoods are "
+            "outside the statement",
+            "a batch with NO finite draw is the recorded known finding F8 (stored as is, logz = -inf): `TapeOk.fin` excludes it from the "
+            "theorems, `C11_all_inf_batch` and the F8 cases of both suites record what happens",
+            "that the sampler stays at beta = 0 while the pool is below the ESS target is C05's theorem on the same pipeline model "
+            "(`C05_warmup_ess`, used by `warm_reweight`); the pool condition is a hypothesis of `C11_pipeline_warmup`",
+            "proposal generation, Hastings factors and Metropolis uniforms at beta > 0 arrive on the tape (C03's model); the pipeline "
+            "model rejects a `none` proposal by definition and the replay compares the accept masks with the real ones",
+            "C11_final is an identity for the mixture-importance estimator over a FINITE state space whose stored batches have their "
+            "nominal tempered laws and exact normalisers on the supported region; that the finite adaptive particle system approaches "
+            "those laws (MCMC equilibrium, law of large numbers: 'converges') is not proved (C01/C02 are partial for the same reason)",
+            "volume-variation mode: the pipeline model and `C11_pipeline_warmup` are ESS mode only; the replacement step and "
+            "`C11_warmup_all_finite` do not depend on the mode"]
 ASSUMPTIONS = ["likelihood is deterministic and -inf exactly on the scripted region"]
 
 
@@ -28,16 +51,24 @@ def _quiet():
     return contextlib.redirect_stdout(io.StringIO())
 
 
-def run_warmup(rng, n, fins, d=1, blobs=False):
+def run_warmup(rng, n, fins, d=1, blobs=False, vectorize=False):
     """fins[k] = number of finite draws wanted in warm-up iteration k; returns per-iteration records"""
     from tempest import Sampler
     k = len(fins)
     thr = 0.0     # x0 < 0  <=> u0 < 1/2  -> -inf
 
+    def like1(x):
+        return -np.inf if x[0] < thr else -0.5 * float(np.sum(x ** 2))
+
     def like(x):
-        l = -np.inf if x[0] < thr else -0.5 * float(np.sum(x ** 2))
+        if vectorize:
+            return np.array([like1(r) for r in np.atleast_2d(x)])
+        l = like1(x)
         return (l, float(x[0])) if blobs else l
-    s = Sampler(lambda u: 8.0 * u - 4.0, like, d, n_particles=n, clustering=False, ess_ratio=k - 0.5,
+
+    def prior(u):
+        return 8.0 * u - 4.0
+    s = Sampler(prior, like, d, n_particles=n, clustering=False, ess_ratio=k - 0.5, vectorize=vectorize,
                 blobs_dtype=("f8" if blobs else None), n_steps=1, n_max_steps=1)
     s._core._initialize_fresh()
     recs = []
@@ -47,27 +78,42 @@ def run_warmup(rng, n, fins, d=1, blobs=False):
              [Fraction(rng.randrange(1, 1 << 10), 1 << 11) for _ in range(n - nfin)]
         rng.shuffle(u0)
         U = np.array([[float(v)] + [rng.random() for _ in range(d - 1)] for v in u0])
-        with common.patched(np.random, "rand", lambda *shape: U.copy()), \
-                common.patched(np.random, "choice", lambda a, size=None, replace=True, p=None:
-                               np.array([int(np.asarray(a)[rng.randrange(len(a))]) for _ in range(size)], dtype=int)), \
+        picks = []
+
+        def choice(a, size=None, replace=True, p=None):
+            a = np.asarray(a)
+            out = [int(a[rng.randrange(len(a))]) for _ in range(size)]
+            picks.extend(out)
+            return np.array(out, dtype=int)
+        with common.patched(np.random, "rand", lambda *shape: U.copy()), common.patched(np.random, "choice", choice), \
                 _quiet(), warnings.catch_warnings():
             warnings.simplefilter("ignore")
             cur = s.sample()
+        su = np.array(s.state.get_history("u", it), dtype=float)
+        sx = np.array(s.state.get_history("x", it), dtype=float)
+        sl = np.array(s.state.get_history("logl", it), dtype=float)
+        whole = all(np.array_equal(sx[j], prior(su[j])) and (sl[j] == like1(sx[j])) for j in range(n))
+        if blobs:
+            sb = np.array(s.state.get_history("blobs", it), dtype=float).reshape(n)
+            whole = whole and all(sb[j] == sx[j][0] for j in range(n))
+        # which drawn row each stored row is (drawn rows are pairwise distinct in u0 only up to repetition: match by bytes, first hit)
         recs.append({"beta": float(cur["beta"]), "logz": float(cur["logz"]), "n": n, "nfin": nfin,
-                     "stored_inf": int(np.sum(~np.isfinite(s.state.get_history("logl", it)))),
-                     "stored_in_support": bool(np.all(s.state.get_history("x", it)[:, 0] >= thr))})
+                     "flags": "".join("1" if float(v) >= 0.5 else "0" for v in u0), "picks": picks,
+                     "U": U, "stored_u": su, "whole": bool(whole),
+                     "stored_inf": int(np.sum(~np.isfinite(sl))),
+                     "stored_in_support": bool(np.all(sx[:, 0] >= thr))})
     return recs
 
 
-def correspond(tier):
-    drv = common.Driver()
+def _correspond_evidence(tier, drv):
     rng = common.rng_for("C11")
-    c = Corr("warmup-evidence", "exact-dyadic inputs; evidence compared in linear space with the Rat model (1e-12 relative)")
+    c = Corr("warmup-evidence", "exact-dyadic inputs; evidence compared in linear space with the Rat model (1e-12 relative); "
+                                "replacement (stored rows) compared exactly with Model.Pipeline.warmup")
     n_cases = 250 if tier == "quick" else 4000
     lines, all_recs = [], []
     for _ in range(n_cases):
-        n = rng.choice([2, 3, 4, 8, 16, 32])
-        k = rng.randint(1, 6)
+        n = rng.choice([1, 2, 3, 4, 5, 8, 16, 32, 64])
+        k = rng.randint(1, 8)
         style = rng.random()
         fins = []
         for _ in range(k):
@@ -77,29 +123,161 @@ def correspond(tier):
                 fins.append(max(1, n // 2))
             else:
                 fins.append(rng.randint(1, n))
-        recs = run_warmup(rng, n, fins, d=rng.choice([1, 2]), blobs=rng.random() < 0.3)
+        f8 = rng.random() < 0.04
+        if f8:
+            fins[-1] = 0          # the recorded finding F8 as the LAST batch: stored as is, Z = 0
+        vectorize = rng.random() < 0.2
+        blobs = (not vectorize) and rng.random() < 0.3
+        recs = run_warmup(rng, n, fins, d=rng.choice([1, 2]), blobs=blobs, vectorize=vectorize)
         lines.append("warm.Q bs=" + ";".join(f"{n}:{f}" for f in fins))
+        for r in recs:
+            lines.append(f"warm.rep fl={r['flags']} picks={','.join(map(str, r['picks'])) if r['picks'] else '-'}")
         all_recs.append((n, fins, recs))
         c.case((n, fins), k >= 2 and any(f < n for f in fins))
         c.count(f"warmups={k}")
+        c.count(f"n={n}")
         c.count("some_batch_with_inf" if any(f < n for f in fins) else "all_finite")
-    for (n, fins, recs), line, ans in zip(all_recs, lines, drv.batch(lines)):
+        c.count("first_batch_all_finite" if fins[0] == n else "first_batch_with_inf")
+        c.count("replacement_picks", sum(len(r["picks"]) for r in recs))
+        if f8:
+            c.count("F8_last_batch_no_finite_draw")
+        if vectorize:
+            c.count("vectorize")
+        if blobs:
+            c.count("blobs")
+    answers = iter(drv.batch(lines))
+    for (n, fins, recs) in all_recs:
+        ans = next(answers)
+        line = "warm.Q bs=" + ";".join(f"{n}:{f}" for f in fins)
         zs = [Fraction(t) for t in ans.split(",")]
         prob = None
         for it, (r, z) in enumerate(zip(recs, zs)):
+            rep = next(answers)
+            if prob:
+                continue
+            tags_s, flags_after, _lz = rep.split(";")
+            tags = [int(t) for t in tags_s.split(",")]
             if r["beta"] != 0.0:
                 prob = f"iteration {it + 1}: beta={r['beta']} although the pool is below the ESS target (harness expectation)"
-                break
-            if abs(math.exp(r["logz"]) - float(z)) > 1e-12 * float(z):
+            elif abs(math.exp(r["logz"]) - float(z)) > 1e-12 * float(z):
                 prob = f"iteration {it + 1}: recorded logz={r['logz']!r} (Z={math.exp(r['logz'])!r}), model Z={z} ({float(z)!r})"
-                break
-            if r["stored_inf"] or not r["stored_in_support"]:
+            elif not np.array_equal(r["stored_u"], r["U"][tags]):
+                prob = f"iteration {it + 1}: stored u rows are not the rows the model's replacement selects (tags {tags})"
+            elif not r["whole"]:
+                prob = f"iteration {it + 1}: a stored record is not whole (x != T(u) or logl != L(x) or blob != blob(x))"
+            elif r["nfin"] > 0 and (r["stored_inf"] or not r["stored_in_support"] or "0" in flags_after):
                 prob = f"iteration {it + 1}: {r['stored_inf']} stored particle(s) with non-finite logl / outside the support"
-                break
+            elif r["nfin"] == 0 and (r["stored_inf"] != n or "1" in flags_after):
+                prob = f"iteration {it + 1}: batch without a finite draw: stored_inf={r['stored_inf']} (model: stored unchanged, F8)"
         if prob:
             c.disagree(input=line, impl=prob, model=ans, n=n, fins=fins)
         c.sample({"op": line, "model_Z": ans, "impl_logz": [r["logz"] for r in recs]})
-    return [c]
+    return c
+
+
+def _replay_target(rng, d, f):
+    thr = 8.0 * (1.0 - f) - 4.0
+    mu = np.array([rng.uniform(max(thr, -1.5), 3.0)] + [rng.uniform(-1.5, 1.5) for _ in range(d - 1)])
+    s2 = rng.uniform(0.3, 1.5)
+
+    def prior(u):
+        return 8.0 * u - 4.0
+
+    def like(x):
+        if x[0] < thr:
+            return -np.inf
+        return -0.5 * float(np.sum((x - mu) ** 2)) / s2
+    return prior, like
+
+
+def _correspond_replay(tier, drv):
+    from . import pipeline
+    rng = common.rng_for("C11.replay")
+    c = Corr("pipeline-warmup-replay", "toleranced Float (logz/ESS 1e-9, decisions and stored records exact, near-ties counted)")
+    configs = [(k, r) for k in ("tpcn", "rwm") for r in ("syst", "mult")]
+    n_runs = 40 if tier == "quick" else 320
+    recs, lines = [], []
+    for i in range(n_runs):
+        kernel, resample = configs[i % 4]
+        d = rng.choice([1, 2, 3])
+        n = rng.choice([8, 16, 24])
+        f = rng.choice([0.125, 0.25, 0.5, 0.75, 0.9375])
+        ratio = rng.choice([1.5, 2.5, 3.5])
+        prior, like = _replay_target(rng, d, f)
+        seed = rng.randrange(2 ** 31)
+        cfg = {"kernel": kernel, "resample": resample, "d": d, "n": n, "f": f, "ess_ratio": ratio, "seed": seed}
+        np.random.seed(seed)
+        rec = pipeline.Recorder(kernel, resample, n, d, like, prior, ess_ratio=ratio)
+        rec.s._core._initialize_fresh()
+        rec.s._core.n_total = 2 * n
+        f8_at = None
+        aborted = False
+        try:
+            k = 0
+            while rec.s._core._not_termination() and k < 12:
+                rec.iteration()
+                last = rec.impl[-1]
+                if last["beta"] == 0.0 and not np.any(np.isfinite(last["logl"])):
+                    f8_at = k
+                    break
+                k += 1
+        except Exception as e:  # noqa
+            # duplicates made by the replacement leave few distinct particles when n is small: the trainer's global covariance
+            # can be singular / indefinite (LinAlgError in ModeStatistics, `scale < 0` in the tpCN gamma draw).  That abort is
+            # the F24 class of C18 (reported, see clauses/C11.md), not a statement of C11: the completed iterations are still
+            # replayed.  Anything else is a disagreement.
+            degenerate = isinstance(e, np.linalg.LinAlgError) or (isinstance(e, ValueError) and "scale < 0" in str(e))
+            if not degenerate or not rec.impl:
+                c.disagree(input=cfg, impl=f"raised {type(e).__name__}: {e}", model="runs", **cfg)
+                continue
+            aborted = True
+        warm = sum(1 for it in rec.impl if it["beta"] == 0.0)
+        annealed = len(rec.impl) - warm
+        with_inf = sum(1 for t in rec.tapes if t.startswith("D/") and "x" in t.split("/")[2].split(","))
+        inf_props = sum(t.count("x") for t in rec.tapes if t.startswith("A/"))
+        recs.append((rec, cfg, f8_at))
+        lines.append(rec.model_line())
+        c.case((kernel, resample, d, n, f, ratio, seed), f8_at is None and with_inf >= 1 and warm >= 2 and annealed >= 1)
+        c.count(f"{kernel}/{resample}")
+        c.count(f"f={f}")
+        c.count("warmup_iterations", warm)
+        c.count("warmup_batches_with_inf", with_inf)
+        c.count("annealing_iterations", annealed)
+        c.count("inf_proposals_at_beta>0", inf_props)
+        if f8_at is not None:
+            c.count("F8_batch_no_finite_draw")
+        if aborted:
+            c.count("aborted_degenerate_covariance_prefix_replayed")
+    for (rec, cfg, f8_at), ans in zip(recs, drv.batch(lines)):
+        if f8_at is not None:
+            # the model excludes exactly this: `iterate` returns none at the iteration whose batch has no finite draw
+            if ans != f"error:{f8_at}":
+                c.disagree(input=cfg, impl=f"batch {f8_at + 1} has no finite draw (F8)", model=ans[:200], **cfg)
+            continue
+        prob, tie = pipeline.compare(rec, ans)
+        if tie:
+            c.near_ties += 1
+        if not prob and not tie:
+            ev = ans.split("#")[2]
+            _, z1 = rec.s.state.compute_logw_and_logz(1.0)
+            if ev == "none" or not pipeline.close(common.hex2f(ev), float(z1)):
+                prob = f"final evidence: implementation {float(z1)!r}, model {ev if ev == 'none' else common.hex2f(ev)!r}"
+        if not prob:
+            st = rec.s.state
+            for k in range(st.get_history_length()):
+                if not np.all(np.isfinite(np.array(st.get_history("logl", k), dtype=float))):
+                    prob = f"batch {k + 1}: a stored log-likelihood is not finite"
+                    break
+        if prob:
+            c.disagree(input=cfg, impl=prob, model=ans[:300], **cfg)
+        c.sample({"config": cfg, "iterations": len(rec.impl), "betas": [round(it["beta"], 4) for it in rec.impl],
+                  "logz": [round(it["logz"], 4) for it in rec.impl]})
+    return c
+
+
+def correspond(tier):
+    drv = common.Driver()
+    return [_correspond_evidence(tier, drv), _correspond_replay(tier, drv)]
 
 
 # ------------------------------------------------------------------ property oracle on the real code
@@ -123,6 +301,33 @@ def _real_run(rng, f, ess_ratio, n):
             stored = s.state.get_history("logl", it)
             out.append((float(cur["logz"]), int(np.sum(~np.isfinite(stored))), len(stored)))
     return seed, out
+
+
+def _real_whole_run(h):
+    from tempest import Sampler
+    rng = common.rng_for(f"C11.search.{h['seed']}")
+    prior, like = _replay_target(rng, h["d"], h["f"])
+    np.random.seed(h["seed"])
+    s = Sampler(prior, like, h["d"], n_particles=h["n"], clustering=False, sample=h["kernel"], resample=h["resample"],
+                ess_ratio=h["ess_ratio"], n_steps=1, n_max_steps=2)
+    s._core._initialize_fresh()
+    s._core.n_total = 2 * h["n"]
+    with _quiet(), warnings.catch_warnings():
+        warnings.simplefilter("ignore")
+        try:
+            k = 0
+            while s._core._not_termination() and k < 12:
+                s.sample()
+                k += 1
+        except Exception:  # noqa  (aborts are C18's subject)
+            pass
+    for t in range(s.state.get_history_length()):
+        l = np.array(s.state.get_history("logl", t), dtype=float)
+        if np.any(~np.isfinite(l)) and np.any(np.isfinite(l)):
+            return f"batch {t + 1} (beta={float(s.state.get_history('beta')[t])!r}) stores {int(np.sum(~np.isfinite(l)))} non-finite log-likelihood(s) among finite ones"
+        if np.all(~np.isfinite(l)):
+            return None          # F8: reported separately by the random-run oracle below / the witness
+    return None
 
 
 def search(tier, hints):
@@ -149,6 +354,14 @@ def search(tier, hints):
                 break
         if len(found) >= 3:
             return found
+    # whole real runs named by the replay suite's disagreements (plain runs, nothing patched): no -inf may be stored in any
+    # batch that had a finite draw, at any temperature
+    for h in [h for h in hints if "kernel" in h and "seed" in h][:5]:
+        bad = _real_whole_run(h)
+        if bad:
+            found.append(dict(h, what=bad))
+    if len(found) >= 3:
+        return found
     # random real runs: binomial-error oracle
     grid = [(f, r, n) for f in (0.5, 0.1) for r in (2.5, 4.5) for n in (64, 256)]
     for f, r, n in grid[: (4 if tier == "quick" else len(grid))]:
@@ -176,5 +389,8 @@ def replay(obj):
     if "fins" in f:
         found = search("quick", [f])
         return {"fails": bool(found), "detail": found[:1]}
+    if "kernel" in f and "seed" in f:
+        bad = _real_whole_run(f)
+        return {"fails": bool(bad), "detail": bad}
     found = search("quick", [])
     return {"fails": bool(found), "detail": found[:1]}
